@@ -10,6 +10,8 @@ import (
 	"encoding/binary"
 	"fmt"
 	"os"
+	"path/filepath"
+	"strings"
 	"sync"
 	"sync/atomic"
 	"time"
@@ -335,4 +337,26 @@ func NewBtree[TK btree.Ordered, TV any](t *Txn, o StoreOpts) (btree.BtreeInterfa
 // OpenBtree opens an existing store.
 func OpenBtree[TK btree.Ordered, TV any](t *Txn, name string) (btree.BtreeInterface[TK, TV], error) {
 	return common.OpenBtree[TK, TV](Ctx, name, t.Tx, nil)
+}
+
+// EvictNodeCaches drops every B-tree node (and cached registry handle) of this environment from the process
+// L1 cache and the L2 cache, as after eviction under memory pressure or in a process that has just started:
+// the next transaction that needs a node takes a cache miss and loads it from the blob store.
+func (e *Env) EvictNodeCaches() {
+	l1 := cache.GetGlobalL1Cache(e.L2)
+	var ids []sop.UUID
+	filepath.Walk(e.Dir, func(p string, fi os.FileInfo, err error) error {
+		if err != nil || fi.IsDir() {
+			return nil
+		}
+		base := filepath.Base(p)
+		if len(base) == 36 && strings.Count(base, "-") == 4 {
+			if id, err := sop.ParseUUID(base); err == nil {
+				ids = append(ids, id)
+			}
+		}
+		return nil
+	})
+	l1.DeleteNodes(Ctx, ids)
+	l1.Handles.Clear()
 }
